@@ -199,7 +199,7 @@ func enumCases(prop string) []*Case {
 	case "C14":
 		return enumC14()
 	case "C06":
-		return append(append(enumBatchFaults(prop), enumBadSubsets()...), enumBorderRepeats(prop)...)
+		return append(append(append(enumBatchFaults(prop), enumBadSubsets()...), enumBorderRepeats(prop)...), enumUniformForgeries()...)
 	case "C13":
 		return append(append(enumBatchFaults(prop), enumShapes()...), enumBorderRepeats(prop)...)
 	case "C02":
